@@ -72,12 +72,12 @@ PROPS = {
                                           "deque/list contract (append, popleft, pop(idx), identity search) of the interpreter; z3 sequence theory with cvc5 --strings-exp as second back end for queries z3 leaves unknown",
                                           "cooperative scheduling: children interleave at yields (consumer loop) and, with a lock, at the lock and inside the source"],
                 explanation="Owicki-Gries invariant over the real tee_peer/_TeePeer/Tee code: for every registered child buffer_p = hist[y_p:]; each advance yields hist[y_p]; a child ends only after the full sequence; finished/closed children are unregistered (stop buffering) and the source is closed exactly when no child is left; any interleaving of next/close operations of the children (consumer loop = cut point) and any stream length"),
-    "C10": dict(level="proof", canaries=[(CANARY, "canary:max-last-of-ties")], extra=[extras.callkey_partition, extras.refs_validation],
+    "C10": dict(level="proof", canaries=[(CANARY, "canary:max-last-of-ties")], extra=[extras.callkey_partition, extras.refs_validation, extras.lru_methods],
                 trusted_base=TB_COMMON + ["abstract LRU view contracts/refs/ref_lru.py = functools.lru_cache (written from Lib/functools.py, validated differentially)",
                                           "dict / OrderedDict contract of pyvc/odmodel.py (insertion order, move_to_end, popitem(last=False), lookup by key equality)",
                                           "while the cache logic is verified, CallKey.from_call is replaced by its contract `equal call patterns <=> equal keys`; that contract is checked against functools._make_key by bounded native enumeration only (labelled bounded)"],
                 bounded_note=[{"what": "CallKey.from_call vs functools._make_key induce the same partition of call patterns", "bound": "values {1, 1.0, True, '1', (1, 2), None, 2, 'a'} in up to 2 positional and 2 keyword arguments, both keyword orders, typed in {False, True}: native enumeration (bounded stand-in, not counted as discharged)"},
-                              {"what": "bound methods / classmethods / staticmethods", "bound": "LRUAsyncBoundCallable only prepends __self__; covered by the native bounded run in contracts/validate_refs.py, not by obligations"}],
+                              {"what": "bound methods / classmethods / staticmethods", "bound": "LRUAsyncBoundCallable only prepends __self__; random native histories against functools.lru_cache used the same way (replay/bounded.py, labelled bounded), not by obligations"}],
                 explanation="data structure against abstract view: every operation (awaited call incl. failing calls, cache_info, cache_parameters, cache_clear, cache_discard) of Uncached/Memoized/CachedLRUAsyncCallable and of the lru_cache front end refines the abstract LRU view from an arbitrary state of each shape (consumer loop = cut point, so histories are unbounded; maxsize symbolic; three symbolic call patterns)"),
     "C11": dict(level="proof", canaries=[(CANARY, "canary:max-last-of-ties")],
                 trusted_base=TB_COMMON + ["cooperative scheduling: tasks interleave only at the await of the wrapped function (the only suspension point in __call__; C17 effect typing)",
